@@ -1,0 +1,9 @@
+//go:build verif
+
+package keys
+
+import dbm "github.com/tendermint/tm-db"
+
+// NewWithDB returns a keybase over the given database. Verification harness only
+// (build tag verif): lets the simulator put the keybase on its simulated disk.
+func NewWithDB(db dbm.DB) Keybase { return newDbKeybase(db) }
